@@ -10,15 +10,18 @@ ASSUMPTIONS = [
 ]
 
 
-def _b(nv, seq_max, rank_max, k, c_lo, c_hi, dups=True, s0=None, dmax=1):
-    b = {"nv": nv, "seq_max": seq_max, "rank_max": rank_max, "k": k, "c_lo": c_lo, "c_hi": c_hi, "dups": dups, "s0": s0, "dmax": dmax}
+def _b(nv, seq_max, rank_max, k, c_lo, c_hi, dups=True, s0=None, dmax=1, seqs=None):
+    b = {"nv": nv, "seq_max": seq_max, "rank_max": rank_max, "k": k, "c_lo": c_lo, "c_hi": c_hi, "dups": dups, "s0": s0, "dmax": dmax, "seqs": seqs}
     b["_label"] = "%dv-seq%d-rank%d-k%d-c%+d..%+d%s%s" % (nv, seq_max, rank_max + 1, k, c_lo, c_hi, ("-dup%d" % dmax) if dups else "", "" if s0 is None else "-s0_%d" % s0)
+    if seqs is not None:
+        b["_label"] += "-seqs" + "_".join(map(str, seqs))
     return b
 
 
 OBLIGATIONS = [
     chx("servermap_versions", "C11_h", "h_servermap", timeout={"quick": 150, "thorough": 1500},
-        cases={"quick": [_b(2, 3, 1, 2, -1, 0, s0=s) for s in (1, 2, 3)] + [_b(3, 2, 1, 1, -1, 0, dups=False, s0=s) for s in (1, 2)],
+        cases={"quick": [_b(2, 3, 1, 2, -1, 0, s0=s) for s in (1, 2, 3)] + [_b(3, 2, 1, 1, -1, 0, dups=False, s0=s) for s in (1, 2)]
+               + [_b(2, 4, 1, 1, -1, 0, dups=False, seqs=[9, 10, 99, 100])],
                "thorough": [_b(2, 3, 2, k, -1, 1, s0=s) for k in (1, 2, 3) for s in (1, 2, 3)]
                + [_b(2, 2, 1, 3, -1, 0, s0=s, dmax=2) for s in (1, 2)]
                + [_b(3, 3, 1, k, -1, 0, dups=False, s0=s) for k in (1, 2) for s in (1, 2, 3)]},
@@ -30,8 +33,8 @@ OBLIGATIONS = [
         outside="ServermapUpdater (how the map is filled, when querying stops): _check_for_done MODE_READ extension logic is Deferred/"
                 "network driven and not decided; histories of publishes (each publish is one step from an arbitrary map)"),
     chx("new_seqnum", "C11_h", "h_new_seqnum", timeout={"quick": 150, "thorough": 1500},
-        cases={"quick": [_b(2, 3, 0, 2, -1, 0, dups=False)],
-               "thorough": [_b(3, 3, 0, 2, -1, 0, dups=False, s0=s) for s in (1, 2, 3)]},
+        cases={"quick": [_b(2, 3, 0, 2, -1, 0, dups=False), _b(2, 3, 0, 1, 0, 0, dups=False, seqs=[9, 10, 100])],
+               "thorough": [_b(3, 3, 0, 2, -1, 0, dups=False, s0=s) for s in (1, 2, 3)] + [_b(2, 4, 0, 1, 0, 0, dups=False, seqs=[99, 100, 999, 1000])]},
         desc="real Publish.publish and Publish.update executed up to the assignment of _new_seqnum on a real ServerMap (modes WRITE/CHECK/"
              "REPAIR) or with no servermap (initial publish): the new sequence number is strictly above every version in the map, "
              "recoverable or not, and equals highest+1 (1 for the initial publish)",
